@@ -353,7 +353,12 @@ def validate_trace(v, module, cfg, tracefile, splitter="New", max_rounds=6):
         run = [json.loads(l) for l in lines[start:end]]
         bad = json.loads(lines[at - 1]) if at - 1 < len(lines) else None
         op = (bad or {}).get("o", {}).get("op", "?") if isinstance((bad or {}).get("o"), dict) else (bad or {}).get("ev", "?")
-        v.add(f"trace rejected by {module}: op={op} {'panic' if (bad or {}).get('ev')=='Panic' else 'not a model step'}",
+        # where the trace names the case (Dispatch: game id of the run, call path of the rejected observation) the signature
+        # names it too, so that a known finding can be told from any other rejection
+        where = ""
+        if run and run[0].get("id") is not None:
+            where = f" id={run[0]['id']}" + (f" path={bad['path']}" if isinstance(bad, dict) and bad.get("path") else "")
+        v.add(f"trace rejected by {module}:{where} op={op} {'panic' if (bad or {}).get('ev')=='Panic' else 'not a model step'}",
               {"kind": "trace-run", "module": module, "cfg": cfg, "run": run, "rejected_event": bad})
         validated += sum(1 for l in lines[:start] if json.loads(l).get("ev") == splitter)
         rest = lines[end:]
